@@ -17,7 +17,9 @@ package c17
 //  * correspondence with the Lean models (op lines -> Driver/C17.lean): PowerDiff, binary64 addition (round53 / fadd),
 //    GetSupportChains, GetAllBatchFees with and without per-token limit / base fees, UpdateProposalOracles (error kind /
 //    unbonding order on a branch of each history's state), gov Tally (sum of per-validator contributions); repeated calls
-//    of the real functions must be bit-identical (monitors).
+//    of the real functions must be bit-identical (monitors); the transfer stack's OnAcknowledgementPacket for every
+//    acknowledgement shape against the regenerated statement program (ack_test.go);
+//  * round 4: forged acknowledgements of a hostile counterparty relayed as real MsgAcknowledgement transactions (ack_test.go).
 
 import (
 	"encoding/json"
@@ -272,7 +274,7 @@ func TestC17(t *testing.T) {
 		}
 	}
 	var lastGen *gen
-	var probes, tallies, vlists [][2]string
+	var probes, tallies, vlists, acks [][2]string
 	executions := 0
 	for hi := 0; hi < nHist; hi++ {
 		hseed := seed*1000 + int64(hi)
@@ -283,6 +285,7 @@ func TestC17(t *testing.T) {
 		probes = append(probes, g.probes...)
 		tallies = append(tallies, g.tallies...)
 		vlists = append(vlists, g.vlists...)
+		acks = append(acks, g.acks...)
 		ref := []string{fmt.Sprintf("h=0 apphash=%x", g.c.InitResp.AppHash)}
 		okBlocks := 0
 		for i, o := range g.obs {
@@ -404,6 +407,14 @@ func TestC17(t *testing.T) {
 	for _, pr := range vlists {
 		out.Emit(pr[0], pr[1])
 		out.Nontrivial("validatorlist:" + strconv.Itoa(len(pr[0])/200))
+	}
+	// OnAcknowledgementPacket of the transfer stack: the real callback against the regenerated statement program interpreted
+	// by the Lean model (error kind, what the escrow account paid back) — acknowledgement bytes of every shape, each handed
+	// over several times because the JSON decoder's map order is drawn per call
+	out.Reset("models-ack")
+	for _, pr := range acks {
+		out.Emit(pr[0], pr[1])
+		out.Nontrivial("ack:" + pr[1][:min(len(pr[1]), 18)])
 	}
 	modelOps(t, out, seed, lastGen)
 }
